@@ -241,6 +241,12 @@ LongSet ==
 DialOps(k, i) == CASE Rnd(k, i + 500) % 7 = 0 -> << [k |-> "call", api |-> "DialV2", label |-> "dialfail", args |-> [addr |-> "127.0.0.1:99999"]] >>
                    [] Rnd(k, i + 500) % 7 = 1 -> << [k |-> "call", api |-> "DialV2", label |-> "dial", args |-> [addr |-> "127.0.0.1:9"]],
                                                     [k |-> "call", api |-> "ExtraClose", label |-> "extraclose"] >>
+                   \* the same with a per-request timeout option - positive, zero or negative: whether the library accepts the
+                   \* value or refuses it, the attempt is counted, a failure is counted iff an error is returned, and the gauge
+                   \* rises iff a connection is handed out (MetricsLaw kinds dial / dialfail)
+                   [] Rnd(k, i + 500) % 7 = 2 -> << [k |-> "call", api |-> "DialV2", label |-> "dial-opt",
+                                                     args |-> [addr |-> "127.0.0.1:9", timeoutMs |-> <<250, 0, -5, 1500>>[1 + (Rnd(k, i + 900) % 4)]]],
+                                                    [k |-> "call", api |-> "ExtraClose", label |-> "extraclose"] >>
                    [] OTHER -> <<>>
 OpAt(k, i, open) == LET r == Rnd(k, i) % 6 IN
   IF ~open THEN (CASE r \in {0, 1, 4} -> "openOK" [] r \in {2, 5} -> "openFailPw" [] OTHER -> "openFailStatus")
